@@ -173,10 +173,10 @@ def setBits (s : St) (off len : Nat) (v : Bool) : St × Rc :=
     let bad := s.strict && !(allEq s.bits off len (!v))
     ({ s with bits := setRange s.bits off len v }, if bad then .segm else .ok)
 
-/-- `_fsm_set_bit_status_lw` with FSM_BM_DRY_RUN | FSM_BM_STRICT -/
-def checkBits (s : St) (off len : Nat) (v : Bool) : Rc :=
+/-- `_fsm_set_bit_status_lw` with FSM_BM_DRY_RUN | FSM_BM_STRICT: are all bits of the range equal to `cur`? -/
+def checkBits (s : St) (off len : Nat) (cur : Bool) : Rc :=
   if nbits s < off + len then .segm
-  else if allEq s.bits off len (!v) then .ok else .segm
+  else if allEq s.bits off len cur then .ok else .segm
 
 /-- `_fsm_load_fsm_lw` (with the cache reset of the F1 fix) -/
 def loadTree (s : St) : St :=
